@@ -462,9 +462,7 @@ def par_cont(eng, st, rv):
     return par_step(eng, st)
 
 
-class ParCall:
-    def __init__(self, push, cont):
-        self.push, self.cont = push, cont
+ParCall = M.ParCall
 
 
 # ---------------------------------------------------------------------------------------------
